@@ -268,32 +268,35 @@ Qed.
 
 Lemma wf_map : forall kc vc es,
   wf (WMap kc vc es) = true ->
-  len es < 2 ^ 31 /\
+  len es < 2 ^ 31 /\ kc < 128 /\ vc < 128 /\
   forall kv, In kv es ->
     code_of (fst kv) = kc /\ code_of (snd kv) = vc /\
     wf (fst kv) = true /\ wf (snd kv) = true.
 Proof.
   intros kc vc es H. cbn [wf] in H. apply andb_true_iff in H. destruct H as [Hl Hf].
-  split.
-  - unfold lt31 in Hl. apply N.ltb_lt in Hl. exact Hl.
-  - intros kv Hin. rewrite forallb_forall in Hf. specialize (Hf kv Hin).
-    apply andb_true_iff in Hf. destruct Hf as [Hf H4].
-    apply andb_true_iff in Hf. destruct Hf as [Hf H3].
-    apply andb_true_iff in Hf. destruct Hf as [H1 H2].
-    apply N.eqb_eq in H1. apply N.eqb_eq in H2. tauto.
+  apply andb_true_iff in Hl. destruct Hl as [Hl Hvc].
+  apply andb_true_iff in Hl. destruct Hl as [Hl Hkc].
+  unfold lt31 in Hl. apply N.ltb_lt in Hl. apply N.ltb_lt in Hkc. apply N.ltb_lt in Hvc.
+  split; [exact Hl|]. split; [exact Hkc|]. split; [exact Hvc|].
+  intros kv Hin. rewrite forallb_forall in Hf. specialize (Hf kv Hin).
+  apply andb_true_iff in Hf. destruct Hf as [Hf H4].
+  apply andb_true_iff in Hf. destruct Hf as [Hf H3].
+  apply andb_true_iff in Hf. destruct Hf as [H1 H2].
+  apply N.eqb_eq in H1. apply N.eqb_eq in H2. tauto.
 Qed.
 
 Lemma wf_list : forall b ec es,
   wf (WList b ec es) = true ->
-  len es < 2 ^ 31 /\
+  len es < 2 ^ 31 /\ ec < 128 /\
   forall e, In e es -> code_of e = ec /\ wf e = true.
 Proof.
   intros b ec es H. cbn [wf] in H. apply andb_true_iff in H. destruct H as [Hl Hf].
-  split.
-  - unfold lt31 in Hl. apply N.ltb_lt in Hl. exact Hl.
-  - intros e Hin. rewrite forallb_forall in Hf. specialize (Hf e Hin).
-    apply andb_true_iff in Hf. destruct Hf as [H1 H2].
-    apply N.eqb_eq in H1. tauto.
+  apply andb_true_iff in Hl. destruct Hl as [Hl Hec].
+  unfold lt31 in Hl. apply N.ltb_lt in Hl. apply N.ltb_lt in Hec.
+  split; [exact Hl|]. split; [exact Hec|].
+  intros e Hin. rewrite forallb_forall in Hf. specialize (Hf e Hin).
+  apply andb_true_iff in Hf. destruct Hf as [H1 H2].
+  apply N.eqb_eq in H1. tauto.
 Qed.
 
 (* ------------------------------------------------------------------ *)
@@ -433,6 +436,7 @@ Lemma get_map : forall d bs,
       | Some (h, r1) =>
           let n := be_get h in
           if neg32 n then PErr
+          else if negb ((kc <? 128) && (vc <? 128)) then PErr
           else if n =? 0 then POk (WMap kc vc []) r1
           else if negb (known_code kc && known_code vc) then PErr
           else if short r1 (n * (min_size kc + min_size vc)) then PErr
@@ -455,6 +459,7 @@ Lemma get_list : forall d (b : bool) bs,
       | Some (h, r1) =>
           let n := be_get h in
           if neg32 n then PErr
+          else if negb (ec <? 128) then PErr
           else if n =? 0 then POk (WList b ec []) r1
           else if negb (known_code ec) then PErr
           else if short r1 (n * min_size ec) then PErr
@@ -597,12 +602,14 @@ Proof.
       apply (wdepth_struct_in fs [] d fv Hd Hin).
     + rewrite app_length. pose proof (length_put_fields fs). lia.
   - (* WMap *)
-    apply wf_map in Hwf. destruct Hwf as [Hl Hwf].
+    apply wf_map in Hwf. destruct Hwf as [Hl [Hkc [Hvc Hwf]]].
+    apply N.ltb_lt in Hkc. apply N.ltb_lt in Hvc.
     cbn [code_of]. rewrite get_map, put_map_eq.
     cbn [app]. rewrite <- app_assoc.
     rewrite take4_count by exact Hl. cbv zeta.
     rewrite be_get_count by exact Hl.
     rewrite neg32_small by exact Hl.
+    rewrite Hkc, Hvc. cbn [andb negb].
     destruct (len es =? 0) eqn:E0.
     + apply N.eqb_eq in E0. destruct es as [|kv es]; [reflexivity|].
       rewrite len_cons in E0. lia.
@@ -631,12 +638,14 @@ Proof.
       * rewrite <- H1. apply IHk; assumption.
       * rewrite <- H2. apply IHv; assumption.
   - (* WList *)
-    apply wf_list in Hwf. destruct Hwf as [Hl Hwf].
+    apply wf_list in Hwf. destruct Hwf as [Hl [Hec Hwf]].
+    apply N.ltb_lt in Hec.
     rewrite code_of_list, get_list, put_list_eq.
     cbn [app]. rewrite <- app_assoc.
     rewrite take4_count by exact Hl. cbv zeta.
     rewrite be_get_count by exact Hl.
     rewrite neg32_small by exact Hl.
+    rewrite Hec. cbn [negb].
     destruct (len es =? 0) eqn:E0.
     + apply N.eqb_eq in E0. destruct es as [|e es]; [reflexivity|].
       rewrite len_cons in E0. lia.
@@ -660,4 +669,68 @@ Proof.
       apply (wdepth_list_in b ec es d e Hd Hin).
 Qed.
 
+(* ------------------------------------------------------------------ *)
+(* Wire: the writer emits bytes                                        *)
+
+Lemma bytes_ok_app : forall a b, bytes_ok (a ++ b) = bytes_ok a && bytes_ok b.
+Proof. intros a b. unfold bytes_ok. apply forallb_app. Qed.
+
+Lemma bytes_ok_cons : forall x l, bytes_ok (x :: l) = is_byte x && bytes_ok l.
+Proof. reflexivity. Qed.
+
+Lemma bytes_ok_nil : bytes_ok [] = true.
+Proof. reflexivity. Qed.
+
+Lemma is_byte_lt : forall x, x < 256 -> is_byte x = true.
+Proof. intros x H. unfold is_byte. apply N.ltb_lt. exact H. Qed.
+
+Lemma is_byte_code_of : forall w, is_byte (code_of w) = true.
+Proof. intros w. destruct w as [x|x|x|x|x|x|s|fs raw|kc vc es|[|] ec es]; reflexivity. Qed.
+
+Lemma bytes_ok_cat_map : forall A (f : A -> list N) l,
+  (forall x, In x l -> bytes_ok (f x) = true) -> bytes_ok (cat_map f l) = true.
+Proof.
+  intros A f l. induction l as [|x l IH]; intros H.
+  - reflexivity.
+  - rewrite cat_map_cons, bytes_ok_app.
+    rewrite (H x (or_introl eq_refl)).
+    rewrite IH by (intros y Hy; apply H; right; exact Hy). reflexivity.
+Qed.
+
+Lemma put_bytes_ok : forall w, wf w = true -> bytes_ok (put w) = true.
+Proof.
+  induction w as [x|x|x|x|x|x|s|fs raw IHfs|kc vc es IHes|b ec es IHes] using tv_ind';
+    intros Hwf.
+  - cbn [wf] in Hwf. rewrite put_bool_eq, bytes_ok_cons, bytes_ok_nil.
+    unfold is_byte. rewrite Hwf. reflexivity.
+  - cbn [wf] in Hwf. rewrite put_i8_eq, bytes_ok_cons, bytes_ok_nil.
+    unfold is_byte. rewrite Hwf. reflexivity.
+  - rewrite put_i16_eq. apply be_put_bytes_ok.
+  - rewrite put_i32_eq. apply be_put_bytes_ok.
+  - rewrite put_i64_eq. apply be_put_bytes_ok.
+  - rewrite put_dbl_eq. apply be_put_bytes_ok.
+  - cbn [wf] in Hwf. apply andb_true_iff in Hwf. destruct Hwf as [_ Hs].
+    rewrite put_str_eq, bytes_ok_app, be_put_bytes_ok, Hs. reflexivity.
+  - apply wf_struct in Hwf. destruct Hwf as [Hraw Hwf]. subst raw.
+    rewrite put_struct_eq, bytes_ok_app. cbn [app].
+    rewrite andb_true_iff. split; [|reflexivity].
+    unfold put_fields. apply bytes_ok_cat_map. intros [i v] Hin.
+    rewrite put_field_eq, bytes_ok_cons, bytes_ok_app, is_byte_code_of, be_put_bytes_ok.
+    cbn [andb]. rewrite Forall_forall in IHfs.
+    apply (IHfs (i, v) Hin). apply (Hwf (i, v) Hin).
+  - apply wf_map in Hwf. destruct Hwf as [Hl [Hkc [Hvc Hwf]]].
+    rewrite put_map_eq, !bytes_ok_cons, bytes_ok_app, be_put_bytes_ok.
+    rewrite (is_byte_lt kc) by lia. rewrite (is_byte_lt vc) by lia. cbn [andb].
+    apply bytes_ok_cat_map. intros kv Hin.
+    rewrite Forall_forall in IHes. destruct (IHes kv Hin) as [IHk IHv].
+    destruct (Hwf kv Hin) as [_ [_ [H3 H4]]].
+    unfold put_entry. rewrite bytes_ok_app, (IHk H3), (IHv H4). reflexivity.
+  - apply wf_list in Hwf. destruct Hwf as [Hl [Hec Hwf]].
+    rewrite put_list_eq, bytes_ok_cons, bytes_ok_app, be_put_bytes_ok.
+    rewrite (is_byte_lt ec) by lia. cbn [andb].
+    apply bytes_ok_cat_map. intros e Hin.
+    rewrite Forall_forall in IHes. apply (IHes e Hin). apply (Hwf e Hin).
+Qed.
+
 Print Assumptions get_put.
+Print Assumptions put_bytes_ok.
